@@ -81,6 +81,8 @@ def oracle(spec, impl):
 
 def gen(ctx):
     r = ctx.rng.random()
+    if r < 0.12:
+        return sc.gen_mixed_delay_chain(ctx.rng)
     if r < 0.4:
         return sc.gen_dag(ctx.rng, pull_comps=True)
     if r < 0.8:
